@@ -29,6 +29,9 @@ func propC04(w *World, r *Report) {
 	checkStemChunks(w, r)
 	checkEdgeStack(w, r)
 	checkFlexGuards(w, r)
+	checkWidthPrefix(w, r)
+	checkMoveToForms(w, r)
+	checkOperandSelection(w, r)
 }
 
 // ---- endchar
@@ -1022,4 +1025,709 @@ func checkFlexGuards(w *World, r *Report) {
 		}
 	}
 	r.Floor("flexguard", 2)
+}
+
+// checkWidthPrefix: TN5177 3.1/4.2: the first stack-clearing operator may be
+// preceded by one extra operand, the difference between the glyph's width
+// and nominalWidthX; when it is absent the width is defaultWidthX.  The
+// encoder must therefore emit the operand exactly when width != default and
+// its value must be width - nominal.
+func checkWidthPrefix(w *World, r *Report) {
+	r.Rule("widthprefix: in encodeCharString the width operand is appended under the test width != defaultWidth (first parameter) and its value is encodeNumber(width - nominalWidth) (second parameter); it is the first thing appended to the header")
+	fn := w.Func("(*cff.Glyph).encodeCharString")
+	if fn == nil || len(fn.Params) < 3 {
+		r.Fatal("(*cff.Glyph).encodeCharString does not resolve")
+		return
+	}
+	def, nom := fn.Params[1], fn.Params[2]
+	key := r.MkKey("widthprefix", "encodeCharString", "width operand")
+	var enc *ssa.Call
+	for _, b := range fn.Blocks {
+		for _, in := range b.Instrs {
+			if c, ok := in.(*ssa.Call); ok {
+				if callee := c.Call.StaticCallee(); callee != nil && callee.Name() == "encodeNumber" && len(c.Call.Args) == 1 {
+					if bo, ok := c.Call.Args[0].(*ssa.BinOp); ok && bo.Op == token.SUB && (bo.Y == ssa.Value(nom) || bo.Y == ssa.Value(def)) {
+						enc = c
+					}
+				}
+			}
+		}
+	}
+	if enc == nil {
+		r.Fail("widthprefix", key, w.Pos(fn.Pos()), "no encodeNumber(width - nominalWidth) found", nil)
+		return
+	}
+	sub := enc.Call.Args[0].(*ssa.BinOp)
+	var problems []string
+	if sub.Y != ssa.Value(nom) {
+		problems = append(problems, "the operand is computed relative to "+sub.Y.Name()+" instead of nominalWidth")
+	}
+	// width: a load of g.Width
+	isWidth := func(v ssa.Value) bool {
+		u, ok := v.(*ssa.UnOp)
+		if !ok {
+			return false
+		}
+		fa, ok := u.X.(*ssa.FieldAddr)
+		return ok && fieldName(fa) == "Width"
+	}
+	if !isWidth(sub.X) {
+		problems = append(problems, "the minuend is not the glyph's Width")
+	}
+	guardOK := false
+	for _, g := range guardsOf(enc.Block()) {
+		if cmp, ok := g.cond.(*ssa.BinOp); ok && isWidth(cmp.X) {
+			if cmp.Op == token.NEQ && g.then && cmp.Y == ssa.Value(def) || cmp.Op == token.EQL && !g.then && cmp.Y == ssa.Value(def) {
+				guardOK = true
+			} else if cmp.Y == ssa.Value(nom) {
+				problems = append(problems, "the presence test compares the width with nominalWidth instead of defaultWidth")
+			}
+		}
+	}
+	if !guardOK {
+		problems = append(problems, "the operand is not emitted under the test width != defaultWidth")
+	}
+	if len(problems) == 0 {
+		r.OK("widthprefix", key, w.Pos(enc.Pos()), "emitted iff width != defaultWidth, value width - nominalWidth")
+	} else {
+		r.Fail("widthprefix", key, w.Pos(enc.Pos()), strings.Join(problems, "; ")+": the interpreter computes the width as nominalWidthX + operand, or defaultWidthX when the operand is absent", nil)
+	}
+	r.Floor("widthprefix", 1)
+}
+
+// checkMoveToForms: hmoveto takes dx and requires dy = 0, vmoveto takes dy
+// and requires dx = 0, rmoveto takes both.
+func checkMoveToForms(w *World, r *Report) {
+	r.Rule("movetoform: in encodePaths a move is written as vmoveto with operand dy only under dx = 0, as hmoveto with operand dx only under dy = 0 (and dx != 0), and as rmoveto dx dy otherwise")
+	pkg := w.All[modPath+"/cff"]
+	if pkg == nil {
+		r.Fatal("package cff not loaded")
+		return
+	}
+	var fd *ast.FuncDecl
+	for _, f := range pkg.Syntax {
+		for _, d := range f.Decls {
+			if x, ok := d.(*ast.FuncDecl); ok && x.Name.Name == "encodePaths" {
+				fd = x
+			}
+		}
+	}
+	if fd == nil {
+		r.Fatal("encodePaths not found")
+		return
+	}
+	argIdx := func(e ast.Expr) (int, bool) { // X.Args[i](.Code | .IsZero())
+		if call, ok := e.(*ast.CallExpr); ok {
+			e = call.Fun
+		}
+		if sel, ok := e.(*ast.SelectorExpr); ok && (sel.Sel.Name == "Code" || sel.Sel.Name == "IsZero") {
+			e = sel.X
+		}
+		ix, ok := e.(*ast.IndexExpr)
+		if !ok {
+			return 0, false
+		}
+		if sel, ok := ix.X.(*ast.SelectorExpr); !ok || sel.Sel.Name != "Args" {
+			return 0, false
+		}
+		tv, ok := pkg.TypesInfo.Types[ix.Index]
+		if !ok || tv.Value == nil {
+			return 0, false
+		}
+		v, _ := constant.Int64Val(tv.Value)
+		return int(v), true
+	}
+	want := map[string]struct {
+		ops   []int
+		zeros []int
+	}{"t2vmoveto": {[]int{1}, []int{0}}, "t2hmoveto": {[]int{0}, []int{1}}, "t2rmoveto": {[]int{0, 1}, nil}}
+	seen := map[string]bool{}
+	var walk func(stmts []ast.Stmt, zeros map[int]bool)
+	walk = func(stmts []ast.Stmt, zeros map[int]bool) {
+		for _, s := range stmts {
+			switch x := s.(type) {
+			case *ast.IfStmt:
+				nz := map[int]bool{}
+				for k := range zeros {
+					nz[k] = true
+				}
+				if call, ok := x.Cond.(*ast.CallExpr); ok {
+					if sel, ok := call.Fun.(*ast.SelectorExpr); ok && sel.Sel.Name == "IsZero" {
+						if i, ok := argIdx(x.Cond); ok {
+							nz[i] = true
+						}
+					}
+				}
+				walk(x.Body.List, nz)
+				switch e := x.Else.(type) {
+				case *ast.BlockStmt:
+					walk(e.List, zeros)
+				case *ast.IfStmt:
+					walk([]ast.Stmt{e}, zeros)
+				}
+			case *ast.BlockStmt:
+				walk(x.List, zeros)
+			case *ast.ForStmt:
+				walk(x.Body.List, zeros)
+			case *ast.SwitchStmt:
+				for _, c := range x.Body.List {
+					walk(c.(*ast.CaseClause).Body, zeros)
+				}
+			case *ast.AssignStmt:
+				if len(x.Rhs) != 1 {
+					continue
+				}
+				call, ok := x.Rhs[0].(*ast.CallExpr)
+				if !ok || len(call.Args) < 2 {
+					continue
+				}
+				if id, ok := call.Fun.(*ast.Ident); !ok || id.Name != "append" {
+					continue
+				}
+				last := strings.TrimSuffix(types.ExprString(call.Args[len(call.Args)-1]), ".Bytes()")
+				spec, ok := want[last]
+				if !ok {
+					continue
+				}
+				seen[last] = true
+				key := r.MkKey("movetoform", "cff.encodePaths", last)
+				var got []int
+				for _, a := range call.Args[1 : len(call.Args)-1] {
+					if i, ok := argIdx(a); ok {
+						got = append(got, i)
+					} else {
+						got = append(got, -1)
+					}
+				}
+				var problems []string
+				if fmt.Sprint(got) != fmt.Sprint(spec.ops) {
+					problems = append(problems, fmt.Sprintf("operands are the components %v, the operator takes %v", got, spec.ops))
+				}
+				for _, z := range spec.zeros {
+					if !zeros[z] {
+						problems = append(problems, fmt.Sprintf("component %d is not tested to be zero", z))
+					}
+				}
+				if len(problems) == 0 {
+					r.OK("movetoform", key, w.Pos(call.Pos()), "operands and zero test agree with the operator")
+				} else {
+					r.Fail("movetoform", key, w.Pos(call.Pos()), last+": "+strings.Join(problems, "; "), nil)
+				}
+			}
+		}
+	}
+	walk(fd.Body.List, map[int]bool{})
+	for op := range want {
+		if !seen[op] {
+			r.Fail("movetoform", r.MkKey("movetoform", "cff.encodePaths", op), w.Pos(fd.Pos()), op+" is never emitted", nil)
+		}
+	}
+	r.Floor("movetoform", 3)
+}
+
+// ---- operand selection of the alternating operator forms (bounded symbolic interpretation)
+//
+// The loops of AppendEdges that build hlineto/vlineto, hhcurveto/vvcurveto
+// and hvcurveto/vhcurveto are interpreted with concrete values for the small
+// index variables (the position in ops, offs/checkIdx, pos = 0, 1, 2, ...) and
+// symbolic segment data: the interpreter records, for the path that keeps
+// going, which components of which segment are required to be zero and which
+// are appended, and compares every edge offered with the operator's
+// definition in TN5177 4.1.
+
+type osEvent struct {
+	kind     string // "zero", "nonzero", "append"
+	cmd, arg int
+}
+
+type osState struct {
+	ints   map[string]int
+	bools  map[string]*osEvent // boolean variable -> the zero test it stands for (kind "zero")
+	bval   map[string]bool     // decided boolean variables
+	events []osEvent
+	broken bool // left the loop
+}
+
+func (s *osState) clone() *osState {
+	n := &osState{ints: map[string]int{}, bools: map[string]*osEvent{}, bval: map[string]bool{}}
+	for k, v := range s.ints {
+		n.ints[k] = v
+	}
+	for k, v := range s.bools {
+		n.bools[k] = v
+	}
+	for k, v := range s.bval {
+		n.bval[k] = v
+	}
+	n.events = append([]osEvent{}, s.events...)
+	return n
+}
+
+type osEdge struct {
+	op     string
+	n      int // segments consumed
+	events []osEvent
+	pos    token.Pos
+}
+
+type osInterp struct {
+	info  *types.Info
+	edges []osEdge
+	fail  []string
+	op    string
+}
+
+func (in *osInterp) evalInt(e ast.Expr, st *osState) (int, bool) {
+	if tv, ok := in.info.Types[e]; ok && tv.Value != nil {
+		if v, ok := constant.Int64Val(tv.Value); ok {
+			return int(v), true
+		}
+	}
+	switch x := e.(type) {
+	case *ast.ParenExpr:
+		return in.evalInt(x.X, st)
+	case *ast.Ident:
+		v, ok := st.ints[x.Name]
+		return v, ok
+	case *ast.BinaryExpr:
+		a, ok1 := in.evalInt(x.X, st)
+		b, ok2 := in.evalInt(x.Y, st)
+		if !ok1 || !ok2 {
+			return 0, false
+		}
+		switch x.Op {
+		case token.ADD:
+			return a + b, true
+		case token.SUB:
+			return a - b, true
+		case token.MUL:
+			return a * b, true
+		}
+	}
+	return 0, false
+}
+
+// cmdArgOf parses cmds[E].Args[F] (with .Code / .IsZero()) under the state.
+func (in *osInterp) cmdArgOf(e ast.Expr, st *osState) (int, int, bool) {
+	if call, ok := e.(*ast.CallExpr); ok {
+		e = call.Fun
+	}
+	if sel, ok := e.(*ast.SelectorExpr); ok && (sel.Sel.Name == "Code" || sel.Sel.Name == "IsZero") {
+		e = sel.X
+	}
+	ix, ok := e.(*ast.IndexExpr)
+	if !ok {
+		return 0, 0, false
+	}
+	sel, ok := ix.X.(*ast.SelectorExpr)
+	if !ok || sel.Sel.Name != "Args" {
+		return 0, 0, false
+	}
+	ci, ok := sel.X.(*ast.IndexExpr)
+	if !ok || types.ExprString(ci.X) != "cmds" {
+		return 0, 0, false
+	}
+	c, ok1 := in.evalInt(ci.Index, st)
+	a, ok2 := in.evalInt(ix.Index, st)
+	return c, a, ok1 && ok2
+}
+
+// assume: states in which cond has the given truth value (forking on unknown zero tests).
+func (in *osInterp) assume(cond ast.Expr, truth bool, st *osState) []*osState {
+	switch x := cond.(type) {
+	case *ast.ParenExpr:
+		return in.assume(x.X, truth, st)
+	case *ast.UnaryExpr:
+		if x.Op == token.NOT {
+			return in.assume(x.X, !truth, st)
+		}
+	case *ast.Ident:
+		if ev, ok := st.bools[x.Name]; ok {
+			if v, decided := st.bval[x.Name]; decided {
+				if v != truth {
+					return nil
+				}
+				return []*osState{st}
+			}
+			n := st.clone()
+			n.bval[x.Name] = truth
+			k := "zero"
+			if !truth {
+				k = "nonzero"
+			}
+			n.events = append(n.events, osEvent{k, ev.cmd, ev.arg})
+			return []*osState{n}
+		}
+	case *ast.CallExpr:
+		if sel, ok := x.Fun.(*ast.SelectorExpr); ok && sel.Sel.Name == "IsZero" {
+			if c, a, ok := in.cmdArgOf(x, st); ok {
+				// consistent with earlier events?
+				for _, e := range st.events {
+					if e.cmd == c && e.arg == a && (e.kind == "zero" || e.kind == "nonzero") {
+						if (e.kind == "zero") != truth {
+							return nil
+						}
+						return []*osState{st}
+					}
+				}
+				n := st.clone()
+				k := "zero"
+				if !truth {
+					k = "nonzero"
+				}
+				n.events = append(n.events, osEvent{k, c, a})
+				return []*osState{n}
+			}
+		}
+	case *ast.BinaryExpr:
+		switch x.Op {
+		case token.LAND:
+			if truth {
+				var out []*osState
+				for _, s1 := range in.assume(x.X, true, st) {
+					out = append(out, in.assume(x.Y, true, s1)...)
+				}
+				return out
+			}
+			out := in.assume(x.X, false, st)
+			for _, s1 := range in.assume(x.X, true, st) {
+				out = append(out, in.assume(x.Y, false, s1)...)
+			}
+			return out
+		case token.LOR:
+			if truth {
+				out := in.assume(x.X, true, st)
+				for _, s1 := range in.assume(x.X, false, st) {
+					out = append(out, in.assume(x.Y, true, s1)...)
+				}
+				return out
+			}
+			var out []*osState
+			for _, s1 := range in.assume(x.X, false, st) {
+				out = append(out, in.assume(x.Y, false, s1)...)
+			}
+			return out
+		case token.EQL, token.NEQ, token.LSS, token.LEQ, token.GTR, token.GEQ:
+			a, ok1 := in.evalInt(x.X, st)
+			b, ok2 := in.evalInt(x.Y, st)
+			if ok1 && ok2 {
+				var v bool
+				switch x.Op {
+				case token.EQL:
+					v = a == b
+				case token.NEQ:
+					v = a != b
+				case token.LSS:
+					v = a < b
+				case token.LEQ:
+					v = a <= b
+				case token.GTR:
+					v = a > b
+				case token.GEQ:
+					v = a >= b
+				}
+				if v != truth {
+					return nil
+				}
+				return []*osState{st}
+			}
+			// stack-budget and length tests: the interesting path is the one where there is room
+			s := types.ExprString(cond)
+			if strings.Contains(s, "maxStack") || strings.Contains(s, "len(cmds)") || strings.Contains(s, ".Op") {
+				want := !strings.Contains(s, "> maxStack")
+				if x.Op == token.LSS || x.Op == token.LEQ || x.Op == token.EQL {
+					want = true
+				}
+				if want != truth {
+					return nil
+				}
+				return []*osState{st}
+			}
+		}
+	}
+	return []*osState{st}
+}
+
+func (in *osInterp) block(stmts []ast.Stmt, states []*osState) (fall, cont []*osState) {
+	cur := states
+	for _, s := range stmts {
+		var next []*osState
+		for _, st := range cur {
+			f, c := in.stmt(s, st)
+			next = append(next, f...)
+			cont = append(cont, c...)
+		}
+		cur = next
+		if len(cur) == 0 {
+			break
+		}
+	}
+	return cur, cont
+}
+
+// stmt returns the states that fall through and the states that `continue`.
+func (in *osInterp) stmt(s ast.Stmt, st *osState) (fall, cont []*osState) {
+	switch x := s.(type) {
+	case *ast.AssignStmt:
+		if len(x.Lhs) == 1 && len(x.Rhs) == 1 {
+			if id, ok := x.Lhs[0].(*ast.Ident); ok {
+				// boolean standing for a zero test
+				if call, ok := x.Rhs[0].(*ast.CallExpr); ok {
+					if sel, ok := call.Fun.(*ast.SelectorExpr); ok && sel.Sel.Name == "IsZero" {
+						if c, a, ok := in.cmdArgOf(call, st); ok {
+							n := st.clone()
+							n.bools[id.Name] = &osEvent{"zero", c, a}
+							delete(n.bval, id.Name)
+							return []*osState{n}, nil
+						}
+					}
+					if f, ok := call.Fun.(*ast.Ident); ok && f.Name == "append" && id.Name == "code" {
+						n := st.clone()
+						for _, a := range call.Args[1:] {
+							if c, ai, ok := in.cmdArgOf(a, st); ok {
+								n.events = append(n.events, osEvent{"append", c, ai})
+							} else {
+								in.fail = append(in.fail, "append of an operand this rule cannot identify: "+types.ExprString(a))
+							}
+						}
+						return []*osState{n}, nil
+					}
+					if f, ok := call.Fun.(*ast.Ident); ok && f.Name == "append" && id.Name == "edges" {
+						in.edges = append(in.edges, osEdge{op: in.op, n: st.ints["pos"], events: append([]osEvent{}, st.events...), pos: x.Pos()})
+						return []*osState{st}, nil
+					}
+				}
+				if v, ok := in.evalInt(x.Rhs[0], st); ok {
+					n := st.clone()
+					n.ints[id.Name] = v
+					return []*osState{n}, nil
+				}
+				if id.Name == "code" { // code = code[:0]
+					n := st.clone()
+					n.events = nil
+					return []*osState{n}, nil
+				}
+			}
+		}
+		return []*osState{st}, nil
+	case *ast.IncDecStmt:
+		if id, ok := x.X.(*ast.Ident); ok {
+			if v, ok := st.ints[id.Name]; ok {
+				n := st.clone()
+				if x.Tok == token.INC {
+					n.ints[id.Name] = v + 1
+				} else {
+					n.ints[id.Name] = v - 1
+				}
+				return []*osState{n}, nil
+			}
+		}
+		return []*osState{st}, nil
+	case *ast.IfStmt:
+		var thenIn, elseIn []*osState
+		thenIn = in.assume(x.Cond, true, st)
+		elseIn = in.assume(x.Cond, false, st)
+		f, c := in.block(x.Body.List, thenIn)
+		switch e := x.Else.(type) {
+		case nil:
+			f = append(f, elseIn...)
+		case *ast.BlockStmt:
+			f2, c2 := in.block(e.List, elseIn)
+			f = append(f, f2...)
+			c = append(c, c2...)
+		case *ast.IfStmt:
+			for _, s2 := range elseIn {
+				f2, c2 := in.stmt(e, s2)
+				f = append(f, f2...)
+				c = append(c, c2...)
+			}
+		}
+		return f, c
+	case *ast.BranchStmt:
+		if x.Tok == token.CONTINUE {
+			return nil, []*osState{st}
+		}
+		return nil, nil // break: this path stops offering edges
+	case *ast.BlockStmt:
+		return in.block(x.List, []*osState{st})
+	}
+	return []*osState{st}, nil
+}
+
+// runForms interprets one `for v, op := range ops { ... for cond { body } ... }` loop.
+func (in *osInterp) runForms(rs *ast.RangeStmt, opsLit []string, iterations int) {
+	keyVar := ""
+	if id, ok := rs.Key.(*ast.Ident); ok {
+		keyVar = id.Name
+	}
+	for idx, op := range opsLit {
+		in.op = op
+		st := &osState{ints: map[string]int{}, bools: map[string]*osEvent{}, bval: map[string]bool{}}
+		if keyVar != "" {
+			st.ints[keyVar] = idx
+		}
+		states := []*osState{st}
+		for _, s := range rs.Body.List {
+			fs, ok := s.(*ast.ForStmt)
+			if !ok {
+				var next []*osState
+				for _, st := range states {
+					f, _ := in.stmt(s, st)
+					next = append(next, f...)
+				}
+				states = next
+				continue
+			}
+			for it := 0; it < iterations; it++ {
+				var entered []*osState
+				for _, st := range states {
+					entered = append(entered, in.assume(fs.Cond, true, st)...)
+				}
+				f, c := in.block(fs.Body.List, entered)
+				states = append(f, c...)
+				if len(states) == 0 {
+					break
+				}
+			}
+			// statements after the loop see the states of the last iteration
+		}
+	}
+}
+
+func checkOperandSelection(w *World, r *Report) {
+	r.Rule("operands: for hlineto/vlineto, hhcurveto/vvcurveto and hvcurveto/vhcurveto the loops of AppendEdges are interpreted with concrete index variables for the first segments: every form offered appends exactly the components the operator takes, in its order, and every component the operator leaves out is tested to be zero on that path (TN5177 4.1)")
+	pkg := w.All[modPath+"/cff"]
+	if pkg == nil {
+		r.Fatal("package cff not loaded")
+		return
+	}
+	var fd *ast.FuncDecl
+	for _, f := range pkg.Syntax {
+		for _, d := range f.Decls {
+			if x, ok := d.(*ast.FuncDecl); ok && x.Name.Name == "AppendEdges" {
+				fd = x
+			}
+		}
+	}
+	if fd == nil {
+		r.Fatal("AppendEdges not found")
+		return
+	}
+	in := &osInterp{info: pkg.TypesInfo}
+	// ops := []t2op{...} assignments: remember the literal for the following range statement
+	var lastOps []string
+	ast.Inspect(fd.Body, func(n ast.Node) bool {
+		switch x := n.(type) {
+		case *ast.AssignStmt:
+			if len(x.Lhs) == 1 && len(x.Rhs) == 1 && types.ExprString(x.Lhs[0]) == "ops" {
+				if cl, ok := x.Rhs[0].(*ast.CompositeLit); ok {
+					lastOps = nil
+					for _, e := range cl.Elts {
+						lastOps = append(lastOps, types.ExprString(e))
+					}
+				}
+			}
+		case *ast.RangeStmt:
+			if types.ExprString(x.X) == "ops" && len(lastOps) > 0 {
+				in.runForms(x, lastOps, 4)
+				return false
+			}
+		}
+		return true
+	})
+	for _, f := range in.fail {
+		r.Fail("operands", r.MkKey("operands", "(cff.encoder).AppendEdges", "interpretation"), w.Pos(fd.Pos()), f, nil)
+	}
+	seenOps := map[string]int{}
+	for _, e := range in.edges {
+		seenOps[e.op]++
+		key := r.MkKey("operands", "(cff.encoder).AppendEdges", fmt.Sprintf("%s with %d segment(s)", e.op, e.n))
+		if why := operandSpec(e); why == "" {
+			r.OK("operands", key, w.Pos(e.pos), "operands and zero tests agree with the operator")
+		} else {
+			r.Fail("operands", key, w.Pos(e.pos), e.op+" offered for "+fmt.Sprint(e.n)+" segment(s): "+why+": the interpreter reconstructs the omitted components as zero, so the decoded path differs from the glyph", nil)
+		}
+	}
+	for _, op := range []string{"t2hlineto", "t2vlineto", "t2hhcurveto", "t2vvcurveto", "t2hvcurveto", "t2vhcurveto"} {
+		if seenOps[op] == 0 {
+			r.Fail("operands", r.MkKey("operands", "(cff.encoder).AppendEdges", op), w.Pos(fd.Pos()), "no edge for "+op+" was reached by the interpretation", nil)
+		}
+	}
+	r.Floor("operands", 12)
+}
+
+// operandSpec compares the events of an offered edge with the operator definition.
+func operandSpec(e osEdge) string {
+	var appended [][2]int
+	zero := map[[2]int]bool{}
+	nonzero := map[[2]int]bool{}
+	for _, ev := range e.events {
+		switch ev.kind {
+		case "append":
+			appended = append(appended, [2]int{ev.cmd, ev.arg})
+		case "zero":
+			zero[[2]int{ev.cmd, ev.arg}] = true
+		case "nonzero":
+			nonzero[[2]int{ev.cmd, ev.arg}] = true
+		}
+	}
+	var want [][2]int
+	var needZero [][2]int
+	n := e.n
+	switch e.op {
+	case "t2hlineto", "t2vlineto":
+		// alternating lines; hlineto starts with a horizontal line (dx, dy = 0)
+		start := 0
+		if e.op == "t2vlineto" {
+			start = 1
+		}
+		for k := 0; k < n; k++ {
+			c := (start + k) % 2 // component appended: 0 = dx, 1 = dy
+			want = append(want, [2]int{k, c})
+			needZero = append(needZero, [2]int{k, 1 - c})
+		}
+	case "t2hhcurveto", "t2vvcurveto":
+		// hh: dy1? {dxa dxb dyb dxc}+   vv: dx1? {dya dxb dyb dyc}+
+		o := 0 // index of the "main" axis start component: hh -> dxa (0), vv -> dya (1)
+		if e.op == "t2vvcurveto" {
+			o = 1
+		}
+		for k := 0; k < n; k++ {
+			if k == 0 && nonzero[[2]int{0, 1 - o}] {
+				want = append(want, [2]int{0, 1 - o})
+			} else {
+				needZero = append(needZero, [2]int{k, 1 - o})
+			}
+			want = append(want, [2]int{k, o}, [2]int{k, 2}, [2]int{k, 3}, [2]int{k, 4 + o})
+			needZero = append(needZero, [2]int{k, 5 - o})
+		}
+	case "t2hvcurveto", "t2vhcurveto":
+		// curves alternate: one starting horizontal and ending vertical, then one starting vertical and ending horizontal;
+		// the last curve may end with a non-aligned point, whose extra component comes last
+		o := 0
+		if e.op == "t2vhcurveto" {
+			o = 1
+		}
+		for k := 0; k < n; k++ {
+			h := (o + k) % 2 // 0: starts horizontal (dxa, dya = 0), ends vertical (dyc, dxc = 0)
+			want = append(want, [2]int{k, h}, [2]int{k, 2}, [2]int{k, 3}, [2]int{k, 5 - h})
+			needZero = append(needZero, [2]int{k, 1 - h})
+			if k == n-1 && nonzero[[2]int{k, 4 + h}] {
+				want = append(want, [2]int{k, 4 + h})
+			} else {
+				needZero = append(needZero, [2]int{k, 4 + h})
+			}
+		}
+	default:
+		return "unknown operator"
+	}
+	if fmt.Sprint(appended) != fmt.Sprint(want) {
+		return fmt.Sprintf("the operands appended are %v (segment, component), the operator takes %v", appended, want)
+	}
+	for _, z := range needZero {
+		if !zero[z] {
+			return fmt.Sprintf("component %d of segment %d is left out without a test that it is zero", z[1], z[0]+1)
+		}
+	}
+	return ""
 }
